@@ -418,7 +418,8 @@ nfa, with no epsilon transition
 
         """
         from pyformlang.regular_expression import Regex
-        enfas = [self.copy() for _ in self._final_states]
+        enfas = [self._copy_with_single_start_state()
+                 for _ in self._final_states]
         final_states = list(self._final_states)
         for i in range(len(self._final_states)):
             for j in range(len(self._final_states)):
@@ -434,6 +435,22 @@ nfa, with no epsilon transition
                 regex_l.append(regex_sub)
         res = "+".join(regex_l)
         return Regex(res)
+
+    def _copy_with_single_start_state(self) -> "EpsilonNFA":
+        """ Copies the automaton. When it has several start states, the copy \
+        gets a fresh single start state linked to them by epsilon transitions.
+        """
+        enfa = self.copy()
+        if len(self._start_state) <= 1:
+            return enfa
+        new_start = State("#STARTREGEX#")
+        while new_start in self._states:
+            new_start = State(str(new_start.value) + "'")
+        for start in self._start_state:
+            enfa.remove_start_state(start)
+            enfa.add_transition(new_start, Epsilon(), start)
+        enfa.add_start_state(new_start)
+        return enfa
 
     def _get_regex_simple(self) -> str:
         """ Get the regex of an automaton when it only composed of a start and
